@@ -216,10 +216,14 @@ class Engine:
             if isinstance(t, (TUnint, TRec)) and t.none is not None:
                 return V(t, t.none)
             raise Unsupported(f'None where {t.name} expected', node)
-        if isinstance(v, VPy) and isinstance(v.obj, (tuple, list)) and any(isinstance(x, V) for x in v.obj):
+        if isinstance(v, VPy) and isinstance(v.obj, tuple) and isinstance(t, TTup) and len(v.obj) == len(t.items):
+            items = [self.coerce(x if isinstance(x, (V, VNone, VPy)) else const_value(x), it, node) for x, it in zip(v.obj, t.items)]
+            return V(t, t.mk(*[i.term for i in items]))
+        if isinstance(v, VPy) and isinstance(v.obj, (tuple, list)) and any(isinstance(x, (V, VPy, tuple)) for x in v.obj):
             tt = t.inner if isinstance(t, TOpt) else t
             if isinstance(tt, TSeq):
-                items = [self.coerce(x if isinstance(x, (V, VNone, VPy)) else const_value(x), tt.elem, node) for x in v.obj]
+                items = [self.coerce(x if isinstance(x, (V, VNone, VPy)) else (VPy(x) if isinstance(x, tuple) else const_value(x)), tt.elem, node)
+                         for x in v.obj]
                 sv = V(tt, self.mk_seq(tt, [i.term for i in items]))
                 return sv if tt is t else V(t, t.some(sv.term))
         if isinstance(v, VPy):
